@@ -3,7 +3,7 @@
 PROPS = {
     "C05": {
         "suites": [("pure", "cancall"), ("gw", "access")],
-        "theorems_carry": "the call-list scanner grants exactly '*' or an exact comma-separated entry, for all byte strings",
+        "theorems_carry": "the call-list scanner grants exactly '*' or an exact comma-separated entry, for all byte strings; the decision the gateway model takes at both call sites when the access answer arrives (Access.canCallE) forwards the call iff the answer has no error and the scanner grants the method, and refuses with the answer's own error otherwise (call_forwarded_iff)",
         "correspondence_only": "that the gateway consults the scanner before forwarding and carries cid/token in payloads (gateway-level runs)",
         "assumptions": ["Go strings are byte strings; the model uses lists of naturals"],
     },
